@@ -51,107 +51,212 @@ func c18Select(p *an.Prog, r *an.R) {
 	info := d.Pkg.TypesInfo
 	g := an.NewG(info, d.Decl.Body)
 	and := an.Param(info, d.Decl, 1)
-	local := func(name string) types.Object {
-		var o types.Object
-		ast.Inspect(d.Decl.Body, func(n ast.Node) bool {
-			if id, ok := n.(*ast.Ident); ok && id.Name == name && o == nil && info.Defs[id] != nil {
-				o = info.Defs[id]
+	// The shard loop: a range loop whose body assigns two results of a call to a func-typed value
+	// returning (bool, bool) - the (any, all) test of the repository predicate. It lives in
+	// doSelectRepoSet itself or in a helper of the package that doSelectRepoSet calls.
+	type loopSite struct {
+		d                 *an.DeclInfo
+		fn                *types.Func
+		g                 *an.G
+		loop              *ast.RangeStmt
+		anyVar, allVar    types.Object
+		filtered, allFlag types.Object
+	}
+	findLoop := func(fn *types.Func, dd *an.DeclInfo) *loopSite {
+		var ls *loopSite
+		ast.Inspect(dd.Decl.Body, func(n ast.Node) bool {
+			rs, ok := n.(*ast.RangeStmt)
+			if !ok {
+				return true
+			}
+			ast.Inspect(rs.Body, func(m ast.Node) bool {
+				as, ok := m.(*ast.AssignStmt)
+				if !ok || len(as.Lhs) != 2 || len(as.Rhs) != 1 {
+					return true
+				}
+				c, ok := ast.Unparen(as.Rhs[0]).(*ast.CallExpr)
+				if !ok {
+					return true
+				}
+				fid, ok := ast.Unparen(c.Fun).(*ast.Ident)
+				if !ok {
+					return true
+				}
+				v, ok := info.ObjectOf(fid).(*types.Var)
+				if !ok {
+					return true
+				}
+				sig, ok := v.Type().Underlying().(*types.Signature)
+				if !ok || sig.Results().Len() != 2 || sig.Results().At(0).Type().String() != "bool" || sig.Results().At(1).Type().String() != "bool" {
+					return true
+				}
+				a, okA := as.Lhs[0].(*ast.Ident)
+				b, okB := as.Lhs[1].(*ast.Ident)
+				if okA && okB {
+					ls = &loopSite{d: dd, fn: fn, loop: rs, anyVar: info.ObjectOf(a), allVar: info.ObjectOf(b)}
+				}
+				return true
+			})
+			return true
+		})
+		if ls == nil {
+			return nil
+		}
+		// filtered: the slice appended to inside the loop; allFlag: the bool assigned `false` or `x && all` inside it
+		ast.Inspect(ls.loop.Body, func(m ast.Node) bool {
+			as, ok := m.(*ast.AssignStmt)
+			if !ok || len(as.Lhs) != 1 || len(as.Rhs) != 1 {
+				return true
+			}
+			id, ok := as.Lhs[0].(*ast.Ident)
+			if !ok {
+				return true
+			}
+			if c, ok := ast.Unparen(as.Rhs[0]).(*ast.CallExpr); ok && an.IsBuiltin(info, c, "append") && isIdentOf(info, c.Args[0], info.ObjectOf(id)) {
+				ls.filtered = info.ObjectOf(id)
+			}
+			if be, ok := ast.Unparen(as.Rhs[0]).(*ast.BinaryExpr); ok && be.Op == token.LAND && (isIdentOf(info, be.X, ls.allVar) || isIdentOf(info, be.Y, ls.allVar)) {
+				ls.allFlag = info.ObjectOf(id)
 			}
 			return true
 		})
-		return o
+		ls.g = an.NewG(info, dd.Decl.Body)
+		return ls
 	}
-	filtered, filteredAll, hasRepos := local("filtered"), local("filteredAll"), local("hasRepos")
-	if !r.Anchor(and != nil && filtered != nil && filteredAll != nil && hasRepos != nil, "doSelectRepoSet locals and/filtered/filteredAll/hasRepos") {
+	site := findLoop(f, d)
+	if site == nil {
+		p.AllDecls(func(hf *types.Func, hd *an.DeclInfo) {
+			if site != nil || hd.Pkg != d.Pkg || hd.Decl.Body == nil || hf == f || len(an.CallsTo(info, d.Decl.Body, false, hf)) == 0 {
+				return
+			}
+			site = findLoop(hf, hd)
+		})
+	}
+	if !r.Anchor(and != nil && site != nil && site.filtered != nil && site.allFlag != nil, "doSelectRepoSet (or a helper it calls): loop over shards applying the (any, all) predicate test") {
 		return
 	}
-	// the shard loop and the any/all results
-	var shardLoop *ast.RangeStmt
-	var anyVar, allVar types.Object
-	ast.Inspect(d.Decl.Body, func(n ast.Node) bool {
-		rs, ok := n.(*ast.RangeStmt)
-		if !ok {
-			return true
-		}
-		ast.Inspect(rs.Body, func(m ast.Node) bool {
-			as, ok := m.(*ast.AssignStmt)
+	r.Fn(an.FuncName(site.fn))
+	// in doSelectRepoSet itself: filtered / filteredAll are the loop's variables, or the two results of the helper
+	filtered, filteredAll := site.filtered, site.allFlag
+	if site.fn != f {
+		filtered, filteredAll = nil, nil
+		ast.Inspect(d.Decl.Body, func(n ast.Node) bool {
+			as, ok := n.(*ast.AssignStmt)
 			if !ok || len(as.Lhs) != 2 || len(as.Rhs) != 1 {
 				return true
 			}
-			c, ok := ast.Unparen(as.Rhs[0]).(*ast.CallExpr)
-			if ok && isIdentOf(info, c.Fun, hasRepos) {
-				shardLoop = rs
-				anyVar = info.ObjectOf(as.Lhs[0].(*ast.Ident))
-				allVar = info.ObjectOf(as.Lhs[1].(*ast.Ident))
+			if c, ok := ast.Unparen(as.Rhs[0]).(*ast.CallExpr); ok && an.Callee(info, c) == site.fn {
+				if a, ok := as.Lhs[0].(*ast.Ident); ok {
+					filtered = info.ObjectOf(a)
+				}
+				if b, ok := as.Lhs[1].(*ast.Ident); ok {
+					filteredAll = info.ObjectOf(b)
+				}
 			}
 			return true
 		})
-		return true
-	})
-	if !r.Anchor(shardLoop != nil && anyVar != nil && allVar != nil, "doSelectRepoSet/loop over shards calling hasRepos") {
-		return
+		// the helper must return exactly (the appended slice, the flag)
+		retOK := true
+		ast.Inspect(site.d.Decl.Body, func(n ast.Node) bool {
+			if _, isLit := n.(*ast.FuncLit); isLit {
+				return false
+			}
+			if rs, ok := n.(*ast.ReturnStmt); ok {
+				if len(rs.Results) != 2 || !isIdentOf(info, rs.Results[0], site.filtered) || !isIdentOf(info, rs.Results[1], site.allFlag) {
+					retOK = false
+				}
+			}
+			return true
+		})
+		if !r.Anchor(filtered != nil && filteredAll != nil && retOK, "doSelectRepoSet: results of "+an.FuncName(site.fn)+" (selected shards, all-match flag)") {
+			return
+		}
 	}
-	isAppend := func(l an.Loc) bool {
-		as, ok := g.Node(l).(*ast.AssignStmt)
-		if !ok || len(as.Lhs) != 1 || !isIdentOf(info, as.Lhs[0], filtered) {
-			return false
+	shardLoop, anyVar, allVar := site.loop, site.anyVar, site.allVar
+	lg := site.g
+	lname := an.FuncName(site.fn)
+	isAppendIn := func(gg *an.G, obj types.Object) func(l an.Loc) bool {
+		return func(l an.Loc) bool {
+			as, ok := gg.Node(l).(*ast.AssignStmt)
+			if !ok || len(as.Lhs) != 1 || !isIdentOf(info, as.Lhs[0], obj) {
+				return false
+			}
+			c, ok := ast.Unparen(as.Rhs[0]).(*ast.CallExpr)
+			return ok && an.IsBuiltin(info, c, "append")
 		}
-		c, ok := ast.Unparen(as.Rhs[0]).(*ast.CallExpr)
-		return ok && an.IsBuiltin(info, c, "append")
 	}
-	isAllUpdate := func(l an.Loc) bool {
-		as, ok := g.Node(l).(*ast.AssignStmt)
-		if !ok || len(as.Lhs) != 1 || !isIdentOf(info, as.Lhs[0], filteredAll) || as.Tok == token.DEFINE {
-			return false
+	isAllUpdateIn := func(gg *an.G, obj types.Object) func(l an.Loc) bool {
+		return func(l an.Loc) bool {
+			as, ok := gg.Node(l).(*ast.AssignStmt)
+			if !ok || len(as.Lhs) != 1 || !isIdentOf(info, as.Lhs[0], obj) || as.Tok == token.DEFINE {
+				return false
+			}
+			if tv := info.Types[as.Rhs[0]]; tv.Value != nil {
+				return tv.Value.String() == "false"
+			}
+			be, ok := ast.Unparen(as.Rhs[0]).(*ast.BinaryExpr)
+			if !ok || be.Op != token.LAND {
+				return false
+			}
+			return (isIdentOf(info, be.X, obj) && isIdentOf(info, be.Y, allVar)) || (isIdentOf(info, be.Y, obj) && isIdentOf(info, be.X, allVar))
 		}
-		if tv := info.Types[as.Rhs[0]]; tv.Value != nil {
-			return tv.Value.String() == "false"
-		}
-		be, ok := ast.Unparen(as.Rhs[0]).(*ast.BinaryExpr)
-		if !ok || be.Op != token.LAND {
-			return false
-		}
-		return (isIdentOf(info, be.X, filteredAll) && isIdentOf(info, be.Y, allVar)) || (isIdentOf(info, be.Y, filteredAll) && isIdentOf(info, be.X, allVar))
 	}
+	lAppend, lAllUpdate := isAppendIn(lg, site.filtered), isAllUpdateIn(lg, site.allFlag)
+	isAppend, isAllUpdate := isAppendIn(g, filtered), isAllUpdateIn(g, filteredAll)
 	inLoop := func(l an.Loc) bool {
-		n := g.Node(l)
+		n := lg.Node(l)
 		return shardLoop.Body.Pos() <= n.Pos() && n.End() <= shardLoop.Body.End()
 	}
 	nextIter := func(l an.Loc) bool {
-		n := g.Node(l)
+		n := lg.Node(l)
 		return n == ast.Node(shardLoop.Value) || n == ast.Node(shardLoop.Key) || n.Pos() > shardLoop.End()
 	}
-	first, okFirst := g.FirstIn(shardLoop.Body.List[0])
+	first, okFirst := lg.FirstIn(shardLoop.Body.List[0])
 	if !okFirst {
-		r.Und("C18.R3", "search.doSelectRepoSet/shard-loop", shardLoop.Pos(), "first statement of the loop body not in the CFG")
+		r.Und("C18.R3", lname+"/shard-loop", shardLoop.Pos(), "first statement of the loop body not in the CFG")
 		return
 	}
 	// R2
 	nApp := 0
-	for _, l := range g.Locs(func(ast.Node) bool { return true }) {
-		if !isAppend(l) || !inLoop(l) {
+	for _, l := range lg.Locs(func(ast.Node) bool { return true }) {
+		if !lAppend(l) || !inLoop(l) {
 			continue
 		}
 		nApp++
-		fwd := g.Reach(l, true, &an.Search{Target: nextIter, Cut: isAllUpdate, ExitIsTarget: true})
-		bwd := g.Reach(first, false, &an.Search{Target: func(k an.Loc) bool { return k == l }, Cut: isAllUpdate})
-		r.Check(!fwd || !bwd, "C18.R2", "search.doSelectRepoSet/append#"+itoa(nApp)+"/updates-filteredAll", g.Node(l).Pos(), "the selection of this shard updates filteredAll", "a shard is selected without recording whether all of its repositories satisfy the filter: the filter can then be rewritten to `true` although the shard holds repositories that do not satisfy it")
+		fwd := lg.Reach(l, true, &an.Search{Target: nextIter, Cut: lAllUpdate, ExitIsTarget: true})
+		bwd := lg.Reach(first, false, &an.Search{Target: func(k an.Loc) bool { return k == l }, Cut: lAllUpdate})
+		r.Check(!fwd || !bwd, "C18.R2", "search.doSelectRepoSet/append#"+itoa(nApp)+"/updates-filteredAll", lg.Node(l).Pos(), "the selection of this shard updates filteredAll", "a shard is selected without recording whether all of its repositories satisfy the filter: the filter can then be rewritten to `true` although the shard holds repositories that do not satisfy it")
 	}
 	r.Floor("C18.R2.appends", 2, nApp)
-	// any other assignment to filteredAll inside the function must be of an accepted form (or its definition)
-	for _, l := range g.Locs(func(ast.Node) bool { return true }) {
-		as, ok := g.Node(l).(*ast.AssignStmt)
+	// any other assignment to the flag must be of an accepted form (or its definition)
+	for _, l := range lg.Locs(func(ast.Node) bool { return true }) {
+		as, ok := lg.Node(l).(*ast.AssignStmt)
 		if !ok || as.Tok == token.DEFINE {
 			continue
 		}
 		for _, lhs := range as.Lhs {
-			if isIdentOf(info, lhs, filteredAll) && !isAllUpdate(l) {
+			if isIdentOf(info, lhs, site.allFlag) && !lAllUpdate(l) {
 				r.Bad("C18.R2", "search.doSelectRepoSet/filteredAll/other-assignment", as.Pos(), "filteredAll is assigned something other than `false` or `filteredAll && all`")
 			}
 		}
 	}
+	// the flag starts as true
+	startsTrue := false
+	ast.Inspect(site.d.Decl.Body, func(n ast.Node) bool {
+		if as, ok := n.(*ast.AssignStmt); ok && as.Tok == token.DEFINE && len(as.Lhs) == len(as.Rhs) {
+			for i, lh := range as.Lhs {
+				if isIdentOf(info, lh, site.allFlag) {
+					if tv := info.Types[as.Rhs[i]]; tv.Value != nil && tv.Value.String() == "true" {
+						startsTrue = true
+					}
+				}
+			}
+		}
+		return true
+	})
+	_ = startsTrue
 	// R3
-	skip := g.Reach(first, false, &an.Search{Target: nextIter, Cut: isAppend, ExitIsTarget: true, CutEdge: func(b *cfg.Block, k int) bool {
+	skip := lg.Reach(first, false, &an.Search{Target: nextIter, Cut: lAppend, ExitIsTarget: true, CutEdge: func(b *cfg.Block, k int) bool {
 		return edgeFact(b, k, func(atom ast.Expr, truth bool) bool { return isIdentOf(info, atom, anyVar) && !truth })
 	}})
 	r.Check(!skip, "C18.R3", "search.doSelectRepoSet/shard-loop/dropped-only-when-no-repository-matches", shardLoop.Pos(), "a shard is left out only when `any` is false", "a shard can be left out of the selection although the repository predicate was not found false for all of its repositories: its results are lost")
@@ -288,84 +393,92 @@ func c18Select(p *an.Prog, r *an.R) {
 	// R10: the (any, all) accumulator visits every repository of the shard
 	r.Rule("C18.R10", "the loop that computes (any, all) over a shard's repositories has no early exit, except under a condition that implies all == false")
 	nAcc := 0
-	ast.Inspect(d.Decl.Body, func(nd ast.Node) bool {
-		fl, ok := nd.(*ast.FuncLit)
-		if !ok || fl.Type.Results == nil {
-			return true
+	accBodies := []*ast.BlockStmt{d.Decl.Body}
+	p.AllDecls(func(hf *types.Func, hd *an.DeclInfo) {
+		if hd.Pkg == d.Pkg && hd.Decl.Body != nil && hf != f && len(an.CallsTo(info, d.Decl.Body, true, hf)) > 0 {
+			accBodies = append(accBodies, hd.Decl.Body)
 		}
-		// two named bool results
-		var names []*ast.Ident
-		for _, f := range fl.Type.Results.List {
-			names = append(names, f.Names...)
-		}
-		if len(names) != 2 {
-			return true
-		}
-		for _, nm := range names {
-			if b, ok := info.TypeOf(nm).Underlying().(*types.Basic); !ok || b.Kind() != types.Bool {
+	})
+	for _, accBody := range accBodies {
+		ast.Inspect(accBody, func(nd ast.Node) bool {
+			fl, ok := nd.(*ast.FuncLit)
+			if !ok || fl.Type.Results == nil {
 				return true
 			}
-		}
-		allObj := info.ObjectOf(names[1])
-		var stack []ast.Node
-		ast.Inspect(fl.Body, func(m ast.Node) bool {
-			if m == nil {
-				stack = stack[:len(stack)-1]
+			// two named bool results
+			var names []*ast.Ident
+			for _, f := range fl.Type.Results.List {
+				names = append(names, f.Names...)
+			}
+			if len(names) != 2 {
 				return true
 			}
-			stack = append(stack, m)
-			rs, ok := m.(*ast.RangeStmt)
-			if !ok {
-				return true
-			}
-			nAcc++
-			okLoop := true
-			var inner []ast.Node
-			ast.Inspect(rs.Body, func(k ast.Node) bool {
-				if k == nil {
-					inner = inner[:len(inner)-1]
+			for _, nm := range names {
+				if b, ok := info.TypeOf(nm).Underlying().(*types.Basic); !ok || b.Kind() != types.Bool {
 					return true
 				}
-				inner = append(inner, k)
-				var isExit bool
-				switch x := k.(type) {
-				case *ast.BranchStmt:
-					isExit = x.Tok == token.BREAK || x.Tok == token.GOTO
-				case *ast.ReturnStmt:
-					isExit = true
-				}
-				if !isExit {
+			}
+			allObj := info.ObjectOf(names[1])
+			var stack []ast.Node
+			ast.Inspect(fl.Body, func(m ast.Node) bool {
+				if m == nil {
+					stack = stack[:len(stack)-1]
 					return true
 				}
-				justified := false
-				for i := len(inner) - 2; i >= 0; i-- {
-					is, ok := inner[i].(*ast.IfStmt)
-					if !ok {
-						continue
-					}
-					truth := inner[i+1] == ast.Node(is.Body)
-					if an.Implied(is.Cond, truth, func(atom ast.Expr, t bool) bool {
-						if isIdentOf(info, atom, allObj) {
-							return !t
-						}
-						if u, ok := ast.Unparen(atom).(*ast.UnaryExpr); ok && u.Op == token.NOT && isIdentOf(info, u.X, allObj) {
-							return t
-						}
-						return false
-					}) {
-						justified = true
-					}
+				stack = append(stack, m)
+				rs, ok := m.(*ast.RangeStmt)
+				if !ok {
+					return true
 				}
-				if !justified {
-					okLoop = false
-				}
+				nAcc++
+				okLoop := true
+				var inner []ast.Node
+				ast.Inspect(rs.Body, func(k ast.Node) bool {
+					if k == nil {
+						inner = inner[:len(inner)-1]
+						return true
+					}
+					inner = append(inner, k)
+					var isExit bool
+					switch x := k.(type) {
+					case *ast.BranchStmt:
+						isExit = x.Tok == token.BREAK || x.Tok == token.GOTO
+					case *ast.ReturnStmt:
+						isExit = true
+					}
+					if !isExit {
+						return true
+					}
+					justified := false
+					for i := len(inner) - 2; i >= 0; i-- {
+						is, ok := inner[i].(*ast.IfStmt)
+						if !ok {
+							continue
+						}
+						truth := inner[i+1] == ast.Node(is.Body)
+						if an.Implied(is.Cond, truth, func(atom ast.Expr, t bool) bool {
+							if isIdentOf(info, atom, allObj) {
+								return !t
+							}
+							if u, ok := ast.Unparen(atom).(*ast.UnaryExpr); ok && u.Op == token.NOT && isIdentOf(info, u.X, allObj) {
+								return t
+							}
+							return false
+						}) {
+							justified = true
+						}
+					}
+					if !justified {
+						okLoop = false
+					}
+					return true
+				})
+				r.Check(okLoop, "C18.R10", "search.doSelectRepoSet/any-all-accumulator/visits-every-repository", rs.Pos(), "`all` is the conjunction over every repository of the shard", "the loop that computes (any, all) can stop before every repository of the shard was tested while `all` may still be true: a compound shard whose later repositories do not satisfy the filter is reported as all-matching and the filter is rewritten away")
 				return true
 			})
-			r.Check(okLoop, "C18.R10", "search.doSelectRepoSet/any-all-accumulator/visits-every-repository", rs.Pos(), "`all` is the conjunction over every repository of the shard", "the loop that computes (any, all) can stop before every repository of the shard was tested while `all` may still be true: a compound shard whose later repositories do not satisfy the filter is reported as all-matching and the filter is rewritten away")
 			return true
 		})
-		return true
-	})
+	}
 	r.Floor("C18.R10.accumulators", 1, nAcc)
 	// R9: the callers take the shard list and the query together
 	r.Rule("C18.R9", "every caller of selectRepoSet/doSelectRepoSet takes both results (the rewritten query is only valid for the selected shards)")
